@@ -27,20 +27,20 @@
      15 command object (variantCallPacket: discovery or unmarshal)  17 args (CallPacket)
      19 stream id  20 stream name  21 stream type  22 "Invalid command name"
      23 "Invalid transaction ID"  24 control packet "requires N only M bytes". *)
-From Coq Require Import String.
-From Verif Require Import Lib.Base Lib.Sx Lib.GoSem.
+From Verif Require Import Lib.Base Lib.Sx.
 From Verif Require Import Gen.Gen_rtmp Model.Amf0.
 Open Scope N_scope.
 
 (* ---- constants, from the regenerated table ---- *)
-Definition cConnect : bytes := string_bytes rtmp_commandConnect_str.
-Definition cCreateStream : bytes := string_bytes rtmp_commandCreateStream_str.
-Definition cCloseStream : bytes := string_bytes rtmp_commandCloseStream_str.
-Definition cPlay : bytes := string_bytes rtmp_commandPlay_str.
-Definition cPublish : bytes := string_bytes rtmp_commandPublish_str.
-Definition cResult : bytes := string_bytes rtmp_commandResult_str.
-Definition cError : bytes := string_bytes rtmp_commandError_str.
-Definition cLive : bytes := string_bytes "live".          (* NewPublishPacket: literal in the code *)
+Definition cConnect : bytes := rtmp_commandConnect_bytes.
+Definition cCreateStream : bytes := rtmp_commandCreateStream_bytes.
+Definition cCloseStream : bytes := rtmp_commandCloseStream_bytes.
+Definition cPlay : bytes := rtmp_commandPlay_bytes.
+Definition cPublish : bytes := rtmp_commandPublish_bytes.
+Definition cResult : bytes := rtmp_commandResult_bytes.
+Definition cError : bytes := rtmp_commandError_bytes.
+Definition cLive : bytes := [108; 105; 118; 101].         (* "live", NewPublishPacket: literal in the code;
+                                                             tied to the source by c03_source_constructors *)
 
 Definition mtSetChunkSize : N := Z.to_N rtmp_MessageTypeSetChunkSize.
 Definition mtUserControl : N := Z.to_N rtmp_MessageTypeUserControl.
